@@ -661,6 +661,10 @@ def g_wire_netcode(rng, tier, props):
     return out
 
 
+def g_stack_twin(rng, tier, props):
+    return GS.twin_schedules(rng, props, n_of(tier, 12, 120))
+
+
 def g_stack(rng, tier, props):
     return GS.stack_schedules(rng, props, n_of(tier, 100, 1500), tier != "quick")
 
@@ -702,7 +706,7 @@ PLANS = {
                      "every kind with fields at 0/1/63/64/16383/16384/2^30-1/2^30/2^62-1, netcode packets of every kind x 15 sequence values x "
                      "payload lengths, tokens with 1..32 IPv4/IPv6 addresses, byte strings (valid encodings, truncations, byte replacements, "
                      "random) for decode-reencode-decode; all cases count as non-trivial, distinct = different step lists"),
-    "C20": Plan("stack", "TraceTransportMon", ["C20"], [("stack", g_stack)],
+    "C20": Plan("stack", "TraceTransportMon", ["C20"], [("stack", g_stack), ("stack_twin", g_stack_twin)],
                 mc=[mc_job("transport_glue", "MC_Transport", {"quick": ["MC_C20_q1.cfg", "MC_C20_q2.cfg"], "thorough": ["MC_C20_q1.cfg", "MC_C20_q2.cfg"]}, ["C20"], strict=False,
                            cap_q=250, cap_t=5000),
                     # liveness under weak fairness of every endpoint (TLC temporal checking, nothing exported)
@@ -747,8 +751,11 @@ PLANS = {
                 mc=[mc_job("conn_mem", "MC_Conn", {"quick": ["MC_C09_q1.cfg", "MC_C09_q2.cfg", "MC_C09_q3.cfg"],
                                                     "thorough": ["MC_C09_q1.cfg", "MC_C09_q2.cfg", "MC_C09_q3.cfg", "MC_C09_t1.cfg"]}, ["C09"])],
                 level="model_checking", assumptions=MSG_ASSUME),
-    "C11": Plan("msg", "TraceRenetMon", ["C11", "C01", "C02", "C03"], [("multi", g_multi)],
-                mc=[mc_job("server_bcast", "MC_Server", {"quick": ["MC_C11_q1.cfg"], "thorough": ["MC_C11_q1.cfg"]}, ["C11", "C01", "C02", "C03"],
+    # isolation between channels includes the acknowledgement path: an ack caused by one channel's packet must not release another
+    # channel's message (clauses of C08 on every stream, next to those of C01-C03)
+    "C11": Plan("msg", "TraceRenetMon", ["C11", "C01", "C02", "C03", "C08"], [("multi", g_multi), ("random_mixed", g_random_mixed),
+                                                                                 ("stack_twin", g_stack_twin, "stack", "TraceTransportMon")],
+                mc=[mc_job("server_bcast", "MC_Server", {"quick": ["MC_C11_q1.cfg"], "thorough": ["MC_C11_q1.cfg"]}, ["C11", "C01", "C02", "C03", "C08"],
                            strict=False, cap_q=600, cap_t=10000)],
                 level="model_checking", assumptions=MSG_ASSUME,
                 rule="two or three clients on one RenetServer with independent fault schedules, unicast and broadcast(_except) on every channel "
